@@ -4,4 +4,15 @@ import "time"
 
 var specs = map[string]propSpec{
 	"C01": {level: "model_checking", budgetQ: 4 * time.Minute, budgetT: 40 * time.Minute},
+	"C02": {level: "model_checking", budgetQ: 4 * time.Minute, budgetT: 40 * time.Minute},
+	"C04": {level: "model_checking", budgetQ: 4 * time.Minute, budgetT: 40 * time.Minute},
+	"C12": {level: "model_checking", budgetQ: 4 * time.Minute, budgetT: 40 * time.Minute},
+	"C13": {level: "model_checking", budgetQ: 4 * time.Minute, budgetT: 40 * time.Minute},
+	"C20": {level: "model_checking", budgetQ: 4 * time.Minute, budgetT: 40 * time.Minute},
+	"C07": {level: "model_checking", budgetQ: 4 * time.Minute, budgetT: 40 * time.Minute},
+	"C06": {level: "model_checking", budgetQ: 4 * time.Minute, budgetT: 40 * time.Minute},
+	"C15": {level: "model_checking", budgetQ: 4 * time.Minute, budgetT: 40 * time.Minute},
+	"C16": {level: "model_checking", budgetQ: 4 * time.Minute, budgetT: 40 * time.Minute},
+	"C14": {level: "model_checking", budgetQ: 4 * time.Minute, budgetT: 40 * time.Minute},
+	"C03": {level: "model_checking", budgetQ: 4 * time.Minute, budgetT: 40 * time.Minute},
 }
